@@ -294,7 +294,7 @@ def text_case(draw):
     return {"kind": "string", "string": s, "op_seed": draw(st.integers(0, 10**6)), "origin_op": origin_op}
 
 
-PUBLIC_OPS = ["id", "add", "sum", "dot", "get_at", "set_at", "softmax", "sort", "roll", "argmax", "where", "logsumexp", "flip"]
+PUBLIC_OPS = ["id", "add", "sum", "dot", "get_at", "set_at", "softmax", "sort", "roll", "argmax", "where", "logsumexp", "flip", "solve_axes", "solve_shapes", "check"]
 
 
 def check_public(s, op_seed, stats):
@@ -303,12 +303,24 @@ def check_public(s, op_seed, stats):
     from einx._src.namedtensor import stage1
 
     o = outcome(s)
+    rng = np.random.default_rng(op_seed)
+    op = PUBLIC_OPS[op_seed % len(PUBLIC_OPS)]
+    if o[0] != "ok" and op in ("solve_axes", "solve_shapes", "check") and "->" not in s:
+        # rejected strings: the solve_* entry points must quote the caller's string as well
+        try:
+            with warnings.catch_warnings():
+                warnings.simplefilter("ignore")
+                getattr(einx, op)(s, np.ones((2, 2)))
+        except einx.errors.SyntaxError as e:
+            if "Expression:" in str(e) and f'Expression: "{s}"' not in str(e):
+                return [Violation(f"C12|foreign_text|{op}", f"einx.{op}({s!r}, ...) raised a SyntaxError about text the caller did not write: {str(e)[:300]}")]
+        except Exception:  # noqa: BLE001
+            pass
+        return []
     if o[0] != "ok":
         return []
     tree = o[2]
     ins = tree.children[0].children
-    rng = np.random.default_rng(op_seed)
-    op = PUBLIC_OPS[op_seed % len(PUBLIC_OPS)]
     tensors = []
     for e in ins:
         nd = e.ndim
